@@ -25,7 +25,7 @@ PAIRS = [("sqlite", "duckdb"), ("duckdb", "sqlite"), ("sqlite", "sqlite"), ("duc
 
 def feats_for(src, dst, rng):
     f = dict(div=False, ts=True, strftime=True, nulls_order=True, setops_all=False, full_join=True,
-             cte_cols=False)
+             cte_cols=False, derived_setop=0.1, natural_join=0.1)
     if src == "duckdb":
         f.update(semi_anti=True, window=True, setops_all=(dst == "duckdb"), qualify=True, distinct_on=True, alias_shadow=True)
         if dst == "sqlite":
